@@ -404,6 +404,18 @@ impl GtState {
         &self.ranks[0..(self.max_rank as usize)]
     }
 
+    /// Public entry to the private `next_minting_cost` for the solver-based checks in `/verif`.
+    #[cfg(gmsol_verif)]
+    pub fn verif_next_minting_cost(&self, next_minted: u64) -> Result<Option<(u64, u128)>> {
+        self.next_minting_cost(next_minted)
+    }
+
+    /// Public entry to the private `unchecked_update_rank` for the solver-based checks in `/verif`.
+    #[cfg(gmsol_verif)]
+    pub fn verif_update_rank(&self, user: &mut UserHeader) {
+        self.unchecked_update_rank(user)
+    }
+
     /// Request an exchange.
     ///
     /// # CHECK
